@@ -263,6 +263,18 @@ func TestC09(t *testing.T) {
 			}
 		}
 	}
+	// rejected candidates: every construct opener followed by a byte that (for some openers) makes the scanner give
+	// the construct up, then glue that keeps the token stream going. A scanner that searches for the terminator
+	// before it tests whether the construct starts at all pays for the rest of the input at every candidate.
+	for oi, o := range append(append([]string{}, sqlHostile...), htmlHostile...) {
+		for fi, f := range []string{" ", ",", "a", "'", "\x00", "("} {
+			for gi, g := range []string{"", ",", "',", ",',", " "} {
+				if thorough() || (oi+fi+gi)%2 == 0 { // quick: a fixed half
+					add(famCase("repeat", "", o+f+g, ""))
+				}
+			}
+		}
+	}
 	nPairAtoms := len(c09PairAtoms)
 	for i, a := range c09PairAtoms {
 		for j, b := range c09PairAtoms {
